@@ -530,6 +530,11 @@ func (st *tunnelServerStream) readMsgLocked() (data []byte, ok bool, err error) 
 
 		in, ok := st.receiver.dequeue()
 		if !ok {
+			// if stream was canceled while we were waiting, any queued
+			// data was discarded, so return context error
+			if err := st.ctx.Err(); err != nil {
+				return nil, true, err
+			}
 			var err error
 			if halfClosedErr := st.halfClosed.Load(); halfClosedErr != nil {
 				err = halfClosedErr.error
